@@ -41,9 +41,14 @@ def build_tools():
 
 
 def build_harness():
-    """rebuild the harness against /repo's working tree with the verif tag"""
-    rc, out = sh(['go', 'build', '-tags', 'verif', '-o', os.path.join(RUN, 'lcv'), './cmd/lcv'],
-                 cwd=os.path.join(VERIF, 'harness'), env=GOENV, timeout=900)
+    """rebuild the harness against the working tree of REPO (default /repo) with the verif tag"""
+    hdir = os.path.join(VERIF, 'harness')
+    mod = open(os.path.join(hdir, 'go.mod')).read()
+    mod = re.sub(r'replace potano\.layercake => .*', 'replace potano.layercake => ' + REPO, mod)
+    modfile = os.path.join(RUN, 'harness.mod')
+    open(modfile, 'w').write(mod)
+    rc, out = sh(['go', 'build', '-modfile=' + modfile, '-tags', 'verif', '-o', os.path.join(RUN, 'lcv'), './cmd/lcv'],
+                 cwd=hdir, env=GOENV, timeout=900)
     if rc != 0:
         raise Broken('harness build against /repo failed (not a verdict):\n' + out[-6000:])
     # the two real binaries, for process-level observation
